@@ -42,3 +42,6 @@
 #ifndef M_VERIF_LOOPSPEC_pool_spawn
 #define M_VERIF_LOOPSPEC_pool_spawn
 #endif
+#ifndef M_VERIF_LOOPSPEC_mod_kinds
+#define M_VERIF_LOOPSPEC_mod_kinds
+#endif
